@@ -99,6 +99,25 @@ type FV struct {
 	lastClosure *closure
 	closureIsOrd map[string]bool
 	divCache map[string][2]string
+	termNames map[string]string
+	bagSorts  map[string]bool
+	bagUse    int
+	inSwap    bool
+	prop      string // property whose contract slice is being verified ("" = all clauses)
+}
+
+// tagOK: a clause tagged with property ids belongs to the current verification only if it names the current
+// property; untagged clauses always belong.
+func (fv *FV) tagOK(tags []string) bool {
+	if fv.prop == "" || len(tags) == 0 {
+		return true
+	}
+	for _, t := range tags {
+		if t == fv.prop {
+			return true
+		}
+	}
+	return false
 }
 
 type loopCtx struct {
@@ -110,7 +129,7 @@ type loopCtx struct {
 func newFV(w *World, fi *FuncInfo) *FV {
 	fv := &FV{w: w, fi: fi, pkg: fi.Pkg.Types, info: fi.Pkg.TypesInfo, pc: fi.PC, fc: fi.Contract,
 		declared: map[string]bool{}, oblNames: map[string]int{}, written: map[string]bool{}, compSort: map[string]string{}, compKind: map[string]string{},
-		localRoles: map[types.Object]string{}, closures: map[types.Object]*closure{}, closureIsOrd: map[string]bool{},
+		bagSorts: map[string]bool{}, localRoles: map[types.Object]string{}, closures: map[types.Object]*closure{}, closureIsOrd: map[string]bool{},
 		loopOrd: map[ast.Stmt]int{}, tparams: map[string]bool{}, assumptions: map[string]bool{}, callOrd: map[string]int{}}
 	fv.decls = append(fv.decls,
 		"(declare-datatypes ((Slice 0)) (((mk-slice (sbase Int) (soff Int) (slen Int) (scap Int)))))",
@@ -258,6 +277,7 @@ func (fv *FV) sortOf(t types.Type) string {
 type specType struct {
 	sort string
 	elem types.Type
+	key  types.Type
 }
 
 func (s *specType) Underlying() types.Type { return s }
